@@ -63,11 +63,13 @@ func initSyncExternals() {
 			if w.n < 0 {
 				panic(runtimeError("sync: negative WaitGroup counter"))
 			}
+			fr.i.hbRelease(w)
 			return nil
 		},
 		"(*sync.WaitGroup).Wait": func(fr *frame, a []value) value {
 			w := fr.i.sideGet(wgKey{ptrArg(a[0])}, func() interface{} { return &wgState{} }).(*wgState)
 			fr.i.block("waitgroup", func() bool { return w.n == 0 })
+			fr.i.hbAcquire(w)
 			return nil
 		},
 		"(*sync.Once).Do": func(fr *frame, a []value) value {
@@ -131,11 +133,13 @@ func initSyncExternals() {
 	}
 	for _, ty := range []string{"Int32", "Int64", "Uint32", "Uint64", "Uintptr", "Pointer"} {
 		ty := ty
-		externals["sync/atomic.Load"+ty] = func(fr *frame, a []value) value { fr.i.preempt("atomic"); return *ptrArg(a[0]) }
-		externals["sync/atomic.Store"+ty] = func(fr *frame, a []value) value { fr.i.preempt("atomic"); *ptrArg(a[0]) = a[1]; return nil }
+		externals["sync/atomic.Load"+ty] = func(fr *frame, a []value) value { fr.i.preempt("atomic"); fr.i.hbAcquire(ptrArg(a[0])); return *ptrArg(a[0]) }
+		externals["sync/atomic.Store"+ty] = func(fr *frame, a []value) value { fr.i.preempt("atomic"); *ptrArg(a[0]) = a[1]; fr.i.hbRelease(ptrArg(a[0])); return nil }
 		externals["sync/atomic.Swap"+ty] = func(fr *frame, a []value) value {
 			fr.i.preempt("atomic")
 			p := ptrArg(a[0])
+			fr.i.hbAcquire(p)
+			defer fr.i.hbRelease(p)
 			old := *p
 			*p = a[1]
 			return old
@@ -143,6 +147,8 @@ func initSyncExternals() {
 		externals["sync/atomic.CompareAndSwap"+ty] = func(fr *frame, a []value) value {
 			fr.i.preempt("atomic")
 			p := ptrArg(a[0])
+			fr.i.hbAcquire(p)
+			defer fr.i.hbRelease(p)
 			c, t := fr.i.eqTerm(types.Typ[types.Int64], *p, a[1])
 			if t != nil {
 				fr.i.addRecord(Record{Cond: t, Taken: c, Kind: RecIf})
@@ -157,6 +163,8 @@ func initSyncExternals() {
 			externals["sync/atomic.Add"+ty] = func(fr *frame, a []value) value {
 				fr.i.preempt("atomic")
 				p := ptrArg(a[0])
+				fr.i.hbAcquire(p)
+				defer fr.i.hbRelease(p)
 				*p = fr.i.binop(token.ADD, nil, *p, a[1])
 				return *p
 			}
